@@ -286,6 +286,117 @@ func c19Ph(r *rand.Rand) Case {
 		Fail: fail, Nontrivial: mentionsTwo(ov)}
 }
 
+func gCoords(cs dom.Coordinates) string {
+	var l []string
+	for _, c := range cs {
+		l = append(l, c.Layer()+"|"+c.Path())
+	}
+	sort.Strings(l)
+	return gList(l, func(s string) string {
+		i := strings.Index(s, "|")
+		return "(" + gStr(s[:i]) + ", " + gStr(s[i+1:]) + ")"
+	})
+}
+
+// the placeholder resolver built with everything its builder offers: key filter, value matcher, both callbacks
+func c19PhConfigured(r *rand.Rand) Case {
+	ov := c19GenOverlay(r, "l")
+	var pred func(string) bool
+	var coqKf string
+	switch r.Intn(3) {
+	case 0:
+		pred, coqKf = func(string) bool { return true }, "KAll"
+	case 1:
+		pred, coqKf = func(s string) bool { return strings.HasPrefix(s, "c") }, "(KPrefix \"c\")"
+	default:
+		pred, coqKf = func(s string) bool { return s != "a" }, "(KNotEq \"a\")"
+	}
+	var matcher func(string) bool
+	coqVm := "VDefault"
+	switch r.Intn(3) {
+	case 1:
+		matcher, coqVm = func(string) bool { return true }, "VAll"
+	case 2:
+		matcher, coqVm = func(s string) bool { return strings.Contains(s, "}") }, "(VContains \"}\")"
+	}
+	var fail, evs []string
+	var rep *analytics.PlaceholderResolutionReport
+	seen := map[string]bool{}
+	pn := guard(func() {
+		pb := analytics.NewPlaceholderResolverBuilder().WithKeyFilter(pred)
+		if matcher != nil {
+			pb = pb.WithPlaceholderMatcher(matcher)
+		}
+		pb = pb.OnPlaceholderEncountered(func(k, v string) {
+			evs = append(evs, "PhSeen "+gStr(k)+" "+gStr(v))
+			seen[k+"\x00"+v] = true
+		}).OnResolutionFailure(func(k, v string, cs dom.Coordinates) {
+			if !seen[k+"\x00"+v] {
+				fail = append(fail, "OnResolutionFailure("+k+") without an earlier OnPlaceholderEncountered for it")
+			}
+			evs = append(evs, "PhFailed "+gStr(k)+" "+gStr(v)+" "+gCoords(cs))
+		})
+		presolver := pb.Build()
+		// callbacks set on the builder afterwards belong to resolvers built afterwards
+		pb.OnPlaceholderEncountered(func(string, string) { panic("callback of a later configuration") })
+		rep = presolver.Resolve(ov.build())
+	})
+	if pn != "" {
+		return Case{Kind: "placeholder-configured", Desc: map[string]any{"overlay": ov.desc(), "panic": pn}, Fail: []string{"panic in placeholder resolver: " + pn}, Nontrivial: true}
+	}
+	co := normMap(rep.Coordinates)
+	return Case{Kind: "placeholder-configured", Desc: map[string]any{"overlay": ov.desc(), "filter": coqKf, "matcher": coqVm, "failed": rep.FailedKeys, "events": evs},
+		Coq:  "CPhM " + coqKf + " " + coqVm + " " + ov.gallina() + " " + gStrs(rep.FailedKeys) + " " + gCoordMap(co) + " [" + strings.Join(evs, "; ") + "]",
+		Fail: fail, Nontrivial: len(evs) >= 2}
+}
+
+// the dependency resolver built with a mention matcher of the caller's and the callback
+func c19DepConfigured(r *rand.Rand) Case {
+	src := c19GenOverlay(r, "s")
+	var refs []c19Overlay
+	for i, n := 0, r.Intn(3); i < n; i++ {
+		refs = append(refs, c19GenOverlay(r, fmt.Sprintf("r%d_", i)))
+	}
+	coqMm := "MDefault"
+	var mm func(string) dom.SearchValueFunc
+	if r.Intn(2) == 0 { // "the value IS the key" (a string equal to the key's path)
+		coqMm = "MEquals"
+		mm = func(k string) dom.SearchValueFunc {
+			return func(v interface{}) bool { s, ok := v.(string); return ok && s == k }
+		}
+		// make it bite: some value spells a key of the pool
+		if len(src.layers) > 0 {
+			src.layers[0]["zz-names-a-key"] = c19Pool[r.Intn(len(c19Pool))]
+		}
+	}
+	var evs []string
+	var rep *analytics.DependencyResolutionReport
+	pn := guard(func() {
+		b := analytics.NewDependencyResolverBuilder().OnPlaceholderEncountered(func(k string, cs dom.Coordinates) {
+			evs = append(evs, "("+gStr(k)+", "+gCoords(cs)+")")
+		})
+		if mm != nil {
+			b = b.PlaceholderMatcher(mm)
+		}
+		var rd []dom.OverlayDocument
+		for _, x := range refs {
+			rd = append(rd, x.build())
+		}
+		rep = b.Build().Resolve(src.build(), rd...)
+	})
+	if pn != "" {
+		return Case{Kind: "dependency-configured", Desc: map[string]any{"src": src.desc(), "panic": pn}, Fail: []string{"panic in dependency resolver: " + pn}, Nontrivial: true}
+	}
+	var refG []string
+	for _, x := range refs {
+		refG = append(refG, x.gallina())
+	}
+	nm := normMap(rep.Map)
+	return Case{Kind: "dependency-configured", Desc: map[string]any{"src": src.desc(), "matcher": coqMm, "all": rep.AllKeys, "orphans": rep.OrphanKeys, "map": nm, "events": evs},
+		Coq:  "CDepM " + coqMm + " " + src.gallina() + " [" + strings.Join(refG, "; ") + "] " + gStrs(rep.AllKeys) + " " + gStrs(rep.OrphanKeys) + " " + gCoordMap(nm) + " [" + strings.Join(evs, "; ") + "]",
+		Fail: nil, Nontrivial: len(evs) >= 1}
+}
+
 func c19Impact(r *rand.Rand) Case {
 	ov := c19GenOverlay(r, "l")
 	var keys []string
@@ -339,13 +450,17 @@ func c19Impact(r *rand.Rand) Case {
 func init() {
 	register(&Prop{
 		ID:   "C19",
-		Rule: "overlays of 1-3 layers over a pool of 5 leaf keys (a, b, c.d, e, f.g); string values are templates mentioning later pool keys (acyclic), unknown keys, defaults, repeated mentions, unterminated placeholders, defaults containing placeholders, look-alike keys and default forms before a plain mention, adjacent placeholders (unknown first), placeholder-like noise, a closing brace before the first placeholder; resolvers built from builders that are re-configured afterwards; impact analysis also through a document set changed between two calls on one analysis object (documents added, or a registered document filled in place); plus ints/bools/plain strings. kinds: dependency (source + 0-2 reference overlays; 20 repeated runs must give equal reports; AllKeys = OrphanKeys ⊎ keys(Map)), placeholder (key filters: all / prefix c / not a; 20 repeated runs), impact (requested key subsets incl. an unknown key). Sorted fields compared exactly, coordinate lists as multisets. Non-trivial: some value mentions >= 2 keys. Distinct by Gallina term. Keys defined as the empty string, a key below a mapping inside a list, layers that disagree about the kind of a node, upper layers that say null where a lower layer has a value. Placeholder names computed by a nested placeholder, mentions of items of lists nested in lists, reference documents passed as a prefix of a caller-owned slice and then in full.",
+		Rule: "overlays of 1-3 layers over a pool of 5 leaf keys (a, b, c.d, e, f.g); string values are templates mentioning later pool keys (acyclic), unknown keys, defaults, repeated mentions, unterminated placeholders, defaults containing placeholders, look-alike keys and default forms before a plain mention, adjacent placeholders (unknown first), placeholder-like noise, a closing brace before the first placeholder; resolvers built from builders that are re-configured afterwards; impact analysis also through a document set changed between two calls on one analysis object (documents added, or a registered document filled in place); plus ints/bools/plain strings. kinds: dependency (source + 0-2 reference overlays; 20 repeated runs must give equal reports; AllKeys = OrphanKeys ⊎ keys(Map)), placeholder (key filters: all / prefix c / not a; 20 repeated runs), impact (requested key subsets incl. an unknown key), placeholder-configured (key filter x value matcher {default, every value, contains a closing brace} with OnPlaceholderEncountered / OnResolutionFailure recording every call: report and the multiset of events vs ph_resolve_m / ph_events; a failure callback never without the encounter callback), dependency-configured (mention matcher {default, the value IS the key} with the callback recording every call: report and events vs dep_resolve_m / dep_events). Sorted fields compared exactly, coordinate lists as multisets. Non-trivial: some value mentions >= 2 keys. Distinct by Gallina term. Keys defined as the empty string, a key below a mapping inside a list, layers that disagree about the kind of a node, upper layers that say null where a lower layer has a value. Placeholder names computed by a nested placeholder, mentions of items of lists nested in lists, reference documents passed as a prefix of a caller-owned slice and then in full.",
 		Gen: func(r *rand.Rand, tier string, idx int) Case {
-			switch idx % 3 {
+			switch idx % 6 {
 			case 0:
 				return c19Dep(r)
 			case 1:
 				return c19Ph(r)
+			case 3:
+				return c19DepConfigured(r)
+			case 4:
+				return c19PhConfigured(r)
 			default:
 				return c19Impact(r)
 			}
